@@ -138,6 +138,7 @@ def monitored_connection_class():
         vf_send_yield = 0.0
         vf_send_hook = None
         vf_wrap = True
+        vf_connect_hook = None     # called at the start of _connect()
 
         def __setattr__(self, name, value):
             # observes who replaces the packet reactor (state shared between
@@ -157,6 +158,8 @@ def monitored_connection_class():
             log = self.vf_log
             if log is not None:
                 log.emit('api.tcp_connect')
+            if self.vf_connect_hook is not None:
+                self.vf_connect_hook()
             super(MonitoredConnection, self)._connect()
             if log is not None and self.vf_wrap:
                 self.vf_generation = getattr(self, 'vf_generation', 0) + 1
